@@ -39,6 +39,7 @@ def run(ctx, repo):
     ctx.call(RM.r_parser_stack_discipline, repo)
     ctx.call(RX.r_none_deref, repo)
     ctx.call(RRDR.r_lookahead_sufficient, repo)
+    ctx.call(RRDR.r_decode_error_index, repo)
     ctx.call(RX.r_buffer_encapsulated, repo)
     ctx.call(RLNG.r_regex_linear, repo)
 
